@@ -111,6 +111,9 @@ class Cell:
     borders: dict = field(default_factory=dict)  # side -> (style, width, cf)
     vertal: str | None = None
     extra: dict = field(default_factory=dict)
+    # character properties of run groups that set properties but enclose no text, e.g. {\f0\cf1\b }
+    # (how the formatting of an EMPTY cell is observable); additive, used by C09
+    empty_runs: list = field(default_factory=list)
 
     @property
     def text(self) -> str:
@@ -284,9 +287,14 @@ def parse(data, strict_tail: bool = True) -> Doc:
     def cprops():
         return {k: v for k, v in cp.items() if k != "uc" and v is not None and v is not False}
 
+    ntext = [0]          # number of add_text calls + paragraph/cell ends so far (to recognise run groups without content)
+    marks: list = []     # ntext at every open group
+    empty_runs: list = []  # cprops of text-less run groups of the running paragraph / cell
+
     def add_text(s: str):
         if not s:
             return
+        ntext[0] += 1
         props = cprops()
         if events and events[-1][0] == "t" and events[-1][2] == props:
             events[-1] = ("t", events[-1][1] + s, props)
@@ -347,6 +355,7 @@ def parse(data, strict_tail: bool = True) -> Doc:
         # ---- groups
         if kind == "open":
             stack.append((dict(cp), dest, dest_depth, sink, sink_kind, font_cur))
+            marks.append(ntext[0])
             depth += 1
             continue
         if kind == "close":
@@ -354,6 +363,9 @@ def parse(data, strict_tail: bool = True) -> Doc:
                 errors.append(("unbalanced-close", off, ""))
                 continue
             prev_cp, prev_dest, prev_dest_depth, prev_sink, prev_sink_kind, prev_font = stack.pop()
+            mark = marks.pop() if marks else ntext[0]
+            if dest is None and mark == ntext[0] and cp != prev_cp:
+                empty_runs.append(cprops())
             if dest is not None and depth == dest_depth:
                 # leaving the group that introduced the current destination
                 if dest == "pict" and pict is not None:
@@ -493,6 +505,8 @@ def parse(data, strict_tail: bool = True) -> Doc:
                 continue
             if a == "par":
                 flush_para()
+                empty_runs = []
+                ntext[0] += 1  # a group that encloses a paragraph end is not a run of the next paragraph
                 continue
             if a == "pard":
                 pp = {}
@@ -595,8 +609,10 @@ def parse(data, strict_tail: bool = True) -> Doc:
             if a == "cell":
                 if not in_rowdef:
                     errors.append(("cell-outside-row", off, ""))
-                row_cells.append(Cell(events, dict(pp)))
+                row_cells.append(Cell(events, dict(pp), empty_runs=empty_runs))
                 events = []
+                empty_runs = []
+                ntext[0] += 1
                 continue
             if a == "row":
                 if not in_rowdef:
